@@ -1,3 +1,4 @@
+import HopModel.Props.C04
 import HopModel.Props.C05
 import HopModel.Props.C14
 import HopModel.Props.C20
